@@ -92,6 +92,66 @@ def _jwks_walks(ctx, maxage, healths):
     return r, out, covered, total
 
 
+CCFG = """SPECIFICATION Spec
+CONSTANTS
+  FetchUnlocked = %s
+  MaxEpoch = %d
+INVARIANT ImplSatisfiesProp
+INVARIANT LockSane
+CHECK_DEADLOCK FALSE
+"""
+
+
+def _conc_walks(ctx, maxepoch, limit):
+    """JwksConc.tla: exhaustive MC of the concurrent model + schedules (driver actions of walks over its graph)."""
+    d = ctx.specdir()
+    with open(d + "/JwksConc_gen.cfg", "w") as fh:
+        fh.write(CCFG % ("FALSE", maxepoch))
+    dot = ctx.path("jwksconc.dot")
+    r = vf.tlc(ctx, "JwksConc", "JwksConc_gen.cfg", workers=2, timeout=900, extra=["-dump", "dot,actionlabels", dot])
+    g = walk.load(dot)
+    os.remove(dot)
+    ws, covered, total = walk.edge_cover(g, maxlen=16, seed=int(ctx.seed), limit=limit)
+    out = []
+    for i, w in enumerate(ws):
+        acts = []
+        for lab, _ in w:
+            name, args = walk.parse_label(lab)
+            if name == "StartAuth":
+                acts.append({"a": "auth", "c": args[0], "k": args[1]})
+            elif name == "StartRefresh":
+                acts.append({"a": "refresh", "c": "", "k": ""})
+            elif name == "Rotate":
+                acts.append({"a": "rotate", "c": "", "k": ""})
+            elif name == "Release":
+                acts.append({"a": "release", "c": args[0], "k": ""})
+            elif name not in ("Enter", "RefreshRuns"):
+                raise vf.Infra("JwksConc: unknown action label " + lab)
+        out.append({"walk": i, "acts": acts})
+    return r, out, covered, total
+
+
+def _conc_say(evs, upto):
+    out = []
+    for e in evs[:upto]:
+        k = e["e"]
+        if k == "astart":
+            out.append("start %s(%s)" % (e["c"], e["k"]))
+        elif k == "aret":
+            out.append("%s returns %s" % (e["c"], "ADMITTED" if e["ok"] else "rejected"))
+        elif k == "dl":
+            out.append("endpoint serves download #%d %s" % (e["id"], "{%s}" % ",".join(e["set"])))
+        elif k == "release":
+            out.append("download #%d answered" % e["id"])
+        elif k == "rstart":
+            out.append("RefreshJWTJWKS called")
+        elif k == "rret":
+            out.append("RefreshJWTJWKS returned")
+        elif k == "rotate":
+            out.append("authority rotates")
+    return "; ".join(out)
+
+
 def _jwks_say(acts, upto):
     return " ".join((a["a"] + ("(%s)" % (a["k"] or a["h"]) if a["k"] or a["h"] else "")) for a in acts[:upto])
 
@@ -128,14 +188,23 @@ def run(ctx):
         fh.write(CFG % ("TRUE" if ctx.thorough else "FALSE"))
     maxage = ctx.pick(1, 2)
     healths = ctx.pick('"ok", "s500", "down", "s503json"', '"ok", "s500", "down", "s503json", "badjson"')
-    pool = concurrent.futures.ThreadPoolExecutor(max_workers=2)
+    pool = concurrent.futures.ThreadPoolExecutor(max_workers=3)
     jfut = pool.submit(_jwks_walks, ctx, maxage, healths)       # runs beside the AuthExt generation
+    maxepoch = ctx.pick(1, 2)
+    cfut = pool.submit(_conc_walks, ctx, maxepoch, ctx.pick(100, 1500))
     r = vf.mc(ctx, "AuthExt", "AuthExt_gen.cfg", workers=6, timeout=1500, java_opts=["-Xmx8g"])
     jr, jwalks, jcovered, jtotal = jfut.result()
     ctx.add("states", jr.distinct)
     ctx.add("transitions", jr.generated)
     ctx.cov.setdefault("mc_runs", []).append({"module": "JwksCache", "cfg": "JwksCache_gen.cfg", "distinct": jr.distinct,
                                               "generated": jr.generated, "depth": jr.depth, "wall_s": round(jr.wall, 2)})
+    cr, cwalks, ccovered, ctotal = cfut.result()
+    ctx.add("states", cr.distinct)
+    ctx.add("transitions", cr.generated)
+    ctx.cov.setdefault("mc_runs", []).append({"module": "JwksConc", "cfg": "JwksConc_gen.cfg", "distinct": cr.distinct,
+                                              "generated": cr.generated, "depth": cr.depth, "wall_s": round(cr.wall, 2)})
+    if len(cwalks) < 50:
+        raise vf.Infra("JwksConc: only %d schedules" % len(cwalks))
     if jcovered != jtotal or len(jwalks) < 20:
         raise vf.Infra("JwksCache: %d of %d edges covered by %d walks" % (jcovered, jtotal, len(jwalks)))
     perms = r.tagged("PERMS")
@@ -153,8 +222,13 @@ def run(ctx):
     of = ctx.path("obs.ndjson")
     jcf = vf.write_ndjson(ctx.path("jwks_walks.ndjson"), jwalks)
     jof = d + "/C02_jwks_trace.ndjson"
-    gout = vf.gotest_ok(ctx, PKG, "^TestVerif_C02_(Replay|Jwks)$", cases=cf, out=of, timeout=1500, extra=["-v"],
-                        params={"JWKSCASES": jcf, "JWKSOUT": jof, "MAXAGE": maxage})
+    ccf = vf.write_ndjson(ctx.path("conc_walks.ndjson"), cwalks)
+    cof = d + "/C02_conc_trace.ndjson"
+    gout = vf.gotest_ok(ctx, PKG, "^TestVerif_C02_(Replay|Jwks|JwksConc)$", cases=cf, out=of, timeout=1500, extra=["-v"],
+                        params={"JWKSCASES": jcf, "JWKSOUT": jof, "MAXAGE": maxage, "CONCCASES": ccf, "CONCOUT": cof})
+    crecs = vf.read_ndjson(cof)
+    if [x["walk"] for x in crecs] != list(range(len(cwalks))):
+        raise vf.Infra("harness executed %d of %d concurrent JWKS schedules" % (len(crecs), len(cwalks)))
     import re
     ctx.set("go_test_seconds", {m.group(1): float(m.group(2))
                                 for m in re.finditer(r"--- PASS: TestVerif_C02_(\w+) \(([0-9.]+)s\)", gout)})
@@ -173,6 +247,10 @@ def run(ctx):
         fh.write(TCFG)
     with open(d + "/TraceJwksCache.cfg", "w") as fh:
         fh.write(JTCFG % (maxage, healths))
+    with open(d + "/TraceJwksConc.cfg", "w") as fh:
+        fh.write('SPECIFICATION TraceSpec\nCONSTANTS\n  FetchUnlocked = FALSE\n  MaxEpoch = 1\n'
+                 'INVARIANT Verdicts\nPOSTCONDITION Accepted\nCHECK_DEADLOCK FALSE\n')
+    ctv_fut = pool.submit(vf.tlc, ctx, "TraceJwksConc", "TraceJwksConc.cfg", workers=1, timeout=900, java_opts=["-Xmx4g"])
     jtv_fut = pool.submit(vf.tlc, ctx, "TraceJwksCache", "TraceJwksCache.cfg", workers=1, timeout=900,
                           java_opts=["-Xmx4g"])             # runs beside the AuthExt trace validation
     tf = d + "/C02_trace.ndjson"
@@ -218,7 +296,47 @@ def run(ctx):
         ctx.note("%d records violate the statement (at most 12 reported per class): %s" % (nbad, json.dumps(perclass)))
     # JWKS cache walks: verdicts of TraceJwksCache.tla
     jtv = jtv_fut.result()
+    ctv = ctv_fut.result()
     pool.shutdown()
+    # concurrent JWKS schedules: verdicts of TraceJwksConc.tla, grouped; per group the shortest history
+    cgroups = {}
+    cbad = ctv.tagged("BAD")
+    for bad in cbad:
+        evs = crecs[bad["l"] - 1]["events"]
+        e = evs[bad["step"] - 1]
+        st = [x for x in evs[:bad["step"] - 1] if x["e"] == "astart" and x["c"] == e["c"]][-1]
+        refreshed = any(x["e"] == "rret" and x["t"] < st["t"] for x in evs)
+        dl_after = any(x["e"] == "dl" and x["t"] < e["t"] and
+                       x["t"] > max([y["t0"] for y in evs if y["e"] == "rret" and y["t"] < st["t"]] or [0]) for x in evs)
+        key = (e["ok"], refreshed, dl_after)
+        if key not in cgroups or bad["step"] < cgroups[key][0]:
+            cgroups[key] = (bad["step"], evs, e)
+    for key in sorted(cgroups):
+        n, evs, e = cgroups[key]
+        ctx.violation({"jwks_conc": {"admitted": key[0], "refresh_returned_before_call_started": key[1],
+                                     "download_served_after_that_refresh": key[2]}},
+                      "JWKS cache (concurrent): call %s with a valid token signed by %s was %s, which is not the decision for "
+                      "any download it may use%s; events: [%s]; error: %s" % (
+                          e["c"], e["k"], "ADMITTED" if e["ok"] else "REJECTED",
+                          " (RefreshJWTJWKS had returned before the call started and no download was served since)"
+                          if key[1] and not key[2] else "", _conc_say(evs, n), e.get("err", "")))
+    if cbad:
+        ctx.note("%d decisions of the concurrent JWKS schedules violate the statement (%d classes reported)" % (
+            len(cbad), len(cgroups)))
+    ctx.set("jwks_conc_schedules", len(crecs))
+    ctx.set("jwks_conc_graph_edges_covered", [ccovered, ctotal])
+    ctx.set("jwks_conc_decisions", sum(1 for w in crecs for x in w["events"] if x["e"] == "aret"))
+    ctx.set("jwks_conc_downloads", sum(1 for w in crecs for x in w["events"] if x["e"] == "dl"))
+    ctx.set("jwks_conc_refresh_returns", sum(1 for w in crecs for x in w["events"] if x["e"] == "rret"))
+    ctx.set("jwks_conc_skipped_actions", sum(1 for w in crecs for x in w["events"] if x["e"] == "skip"))
+    ctx.sample({"jwks_conc_schedule": _conc_say(crecs[len(crecs) // 2]["events"], 99)})
+    if ctx.thorough:
+        with open(d + "/JwksConc_dev.cfg", "w") as fh:
+            fh.write(CCFG % ("TRUE", maxepoch))
+        sr2 = vf.tlc(ctx, "JwksConc", "JwksConc_dev.cfg", workers=2, timeout=600, allow_violation=True)
+        if sr2.violated != "ImplSatisfiesProp":
+            raise vf.Infra("JwksConc.tla with FetchUnlocked=TRUE does not violate ImplSatisfiesProp (got %r)" % sr2.violated)
+        ctx.set("deviation_FetchUnlocked_violates", sr2.violated)
     if jtv.tagged("HARNESS"):
         h = jtv.tagged("HARNESS")[0]
         raise vf.Infra("JWKS endpoint of the harness inconsistent with the walk: walk %d step %d: %s" % (
@@ -291,7 +409,7 @@ def run(ctx):
     ctx.set("cases_enumerated", len(cases))
     ctx.set("decisions_by_profile_total_admitted", byprof)
     ctx.set("exhaustive", True)
-    ctx.set("traces_validated_against_impl", len(recs) + len(jrecs))
+    ctx.set("traces_validated_against_impl", len(recs) + len(jrecs) + len(crecs))
     ctx.set("decisions_judged", decisions)
     ctx.set("sequence_records", {m: sum(1 for rec in recs if rec["mode"] == m) for m in ("serial", "concurrent")})
     ctx.set("auth_server_requests_logged", sum(len(rec["log"]) for rec in recs if "log" in rec))
